@@ -439,9 +439,12 @@ def run_plan(plan: Dict[str, Any], env=None) -> Dict[str, Any]:
                 continue
             if op["op"] == "life":
                 for k in op["seq"]:
-                    sc.lifecycle(k)
+                    try:
+                        sc.lifecycle(k)
+                        outs.append("lifecycle")
+                    except Exception as ex:  # noqa: BLE001  (not C01's business; the script goes on)
+                        outs.append("lifecycle-raises-" + type(ex).__name__)
                     kinds.append("lifecycle-" + k)
-                    outs.append("lifecycle")
                 continue
             if op["op"] == "M1":
                 items = [(pc.T_STATE, b"\x01"), (pc.T_METHOD, b"\x00")]
